@@ -323,10 +323,52 @@ def src_search(ctx, cx):
     return len(ctx.failures) > n0
 
 
+def builder_histories(ctx):
+    """a Builder on the stack belongs to the caller, who may go on writing to it between two serialisations: every
+    serialisation must show the builder's content AT THAT MOMENT (nothing remembered from the previous call)"""
+    lib = V._lib()[0]
+    from pytoniq_core.boc.builder import Builder
+    from pytoniq_core import begin_cell
+    rng = ctx.rng
+    leaf = begin_cell().store_uint(0xAB, 8).end_cell()
+    empty_with_refs = begin_cell().store_ref(leaf).store_ref(begin_cell().end_cell()).end_cell()      # zero data bits, two references
+    writes = [('store_cell(0 bits, 2 refs)', lambda b: b.store_cell(empty_with_refs)), ('store_ref', lambda b: b.store_ref(leaf)),
+              ('store_bits', lambda b: b.store_bits('101')), ('store_uint', lambda b: b.store_uint(9, 4)),
+              ('store_cell(bits)', lambda b: b.store_cell(leaf)), ('store_maybe_ref(None)', lambda b: b.store_maybe_ref(None)),
+              ('store_slice(0 bits, 1 ref)', lambda b: b.store_slice(begin_cell().store_ref(leaf).end_cell().begin_parse()))]
+    for t in range(ctx.n(40, 400)):
+        b = Builder()
+        if rng.random() < 0.7:
+            b.store_uint(rng.getrandbits(12), 12)
+        vs = [rng.getrandbits(20), b] if rng.random() < 0.5 else [lib.VmTuple([b, 1]), None]
+        steps = []
+        ctx.case(('builder-history', t))
+        for k in range(rng.randrange(2, 6)):
+            cell, e = _try(lambda: lib.VmStack.serialize(vs))
+            back, e2 = _try(lambda: lib.VmStack.deserialize(cell.begin_parse())) if cell is not None else (None, e)
+            pb = None
+            if back is not None:
+                x = back[1] if isinstance(vs[0], int) else back[0]
+                pb = x if isinstance(x, Builder) else (x[0] if hasattr(x, '__getitem__') else None)
+            now = (b.bits.to01(), [r.hash.hex() for r in b.refs])
+            got = (pb.bits.to01(), [r.hash.hex() for r in pb.refs]) if isinstance(pb, Builder) else None
+            if got != now:
+                ctx.fail('history:builder', 'a stack holding a Builder the caller wrote to between two serialisations does not round-trip to its '
+                         'current content', {'writes': steps, 'shape': 'flat' if isinstance(vs[0], int) else 'tuple'}, got, now)
+                return
+            if len(b.refs) >= 3 or len(b.bits) > 900:
+                break
+            name, w = rng.choice(writes)
+            steps.append(name)
+            w(b)
+            ctx.count('builder-history:' + name.split('(')[0])
+
+
 def run(ctx):
     cx = V.Ctx()
     if ctx.search and src_search(ctx, cx):
         return
+    builder_histories(ctx)
     directed(ctx, cx)
     random_stacks(ctx, cx)
     foreign(ctx, cx)
